@@ -7,6 +7,7 @@ equality of results: one history is replayed under {cache_remote on, off} x
 """
 import json
 import random
+import sys
 from functools import lru_cache
 from urllib.parse import urljoin
 
@@ -38,6 +39,7 @@ REPORT_COUNTERS = ["histories", "configs_run", "operations", "handler_calls", "h
                    "store_doc_refs_resolved", "evictions_observed", "wrapped_as_RefResolutionError"]
 TRIPWIRE_EXPECTED = ("urlopen", "urlopen-served")     # violations are decided in-worker from these events
 URLOPEN_DIR = "vfu://urlopen.example/lib/"
+REQUESTS_DIR = "http://requests.example/lib/"     # http(s) without a handler goes through `requests` when importable
 
 
 class CustomErr(Exception):
@@ -56,7 +58,7 @@ def floors(tier):
     return {"histories": 1500, "configs_run": 9000, "operations": 50000, "handler_successes": 5000, "handler_failures": 1000,
             "plan:ok": 300, "plan:fail_once": 300, "plan:fail_always": 300, "docs_with_3plus_fragments": 500,
             "metaschema_refs_resolved": 2000, "store_doc_refs_resolved": 2000, "evictions_observed": 200,
-            "wrapped_as_RefResolutionError": 1000, "handler_docs_declaring_an_id": 500, "near_identical_url_pairs": 500, "documents_via_urlopen_transport": 500,
+            "wrapped_as_RefResolutionError": 1000, "handler_docs_declaring_an_id": 500, "near_identical_url_pairs": 500, "documents_via_urlopen_transport": 300, "documents_via_requests_transport": 300, "transport_failed_first": 100,
             "direct_resolutions_content_checked": 5000}
 
 
@@ -109,9 +111,12 @@ def make_world(rng, d):
     # documents reachable only through the library's urllib fallback (no handler for the scheme; the harness
     # answers the patched urlopen itself and counts the calls)
     udocs = {}
+    transport_fails_first = False
     if rng.random() < 0.5:
+        prefix = rng.choice([URLOPEN_DIR, REQUESTS_DIR])
+        transport_fails_first = rng.random() < 0.25
         for k in range(rng.randrange(1, 3)):
-            url = URLOPEN_DIR + "u%d.json" % k
+            url = prefix + "u%d.json" % k
             udocs[url] = {"definitions": {"f0": g.keyword_schema("type"), "f1": g.keyword_schema("enum")}, "type": rng.choice(["object", "integer"])}
             for sp in rng.sample([url, url + "#", url + "#/definitions/f0", url + "#/definitions/f1"], 3):
                 props["o%d" % len(props)] = {"$ref": sp}
@@ -147,7 +152,8 @@ def make_world(rng, d):
                 inst[n] = rng.choice([1, "s", {}, [], None, 2.5, {"type": "string"}, "object", -1])
         insts.append(inst)
     return dict(d=d, schema=S, hdocs=hdocs, store=store, refs=refs, instances=insts, frag3=frag3, metas=metas,
-                declared_ids=declared_ids, distinct_pairs=distinct_pairs, udocs=udocs)
+                declared_ids=declared_ids, distinct_pairs=distinct_pairs, udocs=udocs,
+                transport_fails_first=transport_fails_first)
 
 
 def gen_history(rng, w):
@@ -208,12 +214,36 @@ def run_config(w, ops, plan, cache_remote, cache):
     v = cls(w["schema"], resolver=resolver)
     ucalls = []
     tripwire.unserve_all()
+    fake_requests = None
     if w.get("udocs"):
+        attempts = []
+
         def serve(url, w=w, ucalls=ucalls):
             doc = url.split("#")[0]
+            attempts.append(doc)
+            if w.get("transport_fails_first") and len(attempts) == 1:
+                raise OSError("vf: transport failure (injected)")
             ucalls.append(doc)
             return json.dumps(w["udocs"][doc]).encode("utf-8")
         tripwire.serve(URLOPEN_DIR, serve)
+        if any(u.startswith(REQUESTS_DIR) for u in w["udocs"]):
+            class _Resp:
+                def __init__(self, data):
+                    self._data = data
+
+                def json(self):
+                    return json.loads(self._data.decode("utf-8"))
+
+            class _FakeRequests:
+                __name__ = "requests"
+
+                @staticmethod
+                def get(uri, *a, **k):
+                    if not str(uri).startswith(REQUESTS_DIR) or str(uri).split("#")[0] not in w["udocs"]:
+                        raise OSError("vf: no such host (fake requests)")
+                    return _Resp(serve(str(uri)))
+            fake_requests = _FakeRequests()
+            sys.modules["requests"] = fake_requests
     keys0 = set(resolver.store)
     net0 = tripwire.count("urlopen") + tripwire.count("socket.connect") + tripwire.count("socket.getaddrinfo")
     results = []
@@ -241,13 +271,15 @@ def run_config(w, ops, plan, cache_remote, cache):
         info = resolver._remote_cache.cache_info()
         evicted = max(0, info.misses - 1)
     tripwire.unserve_all()
+    if fake_requests is not None:
+        sys.modules.pop("requests", None)
     net = [e for e in tripwire.events() if e["event"] in ("urlopen", "socket.connect", "socket.getaddrinfo")][net0:]
     return dict(results=results, calls=h.calls + [(u, "ok") for u in ucalls], keys0=keys0, keys1=set(resolver.store), net=net,
                 other_exc=other_exc, evicted=evicted, depth=len(resolver._scopes_stack))
 
 
 def check_history(ctx, w, ops, plan):
-    case = {"draft": w["d"], "schema": w["schema"], "handler_docs": w["hdocs"], "urlopen_docs": w.get("udocs") or {}, "store": w["store"], "instances": w["instances"],
+    case = {"draft": w["d"], "schema": w["schema"], "handler_docs": w["hdocs"], "urlopen_docs": w.get("udocs") or {}, "store": w["store"], "instances": w["instances"], "transport_fails_first": bool(w.get("transport_fails_first")),
             "history": ops, "plan": plan}
     ctx.count("histories")
     ctx.case(case)
@@ -256,7 +288,10 @@ def check_history(ctx, w, ops, plan):
     ctx.count("docs_with_3plus_fragments", w["frag3"])
     ctx.count("handler_docs_declaring_an_id", w.get("declared_ids", 0))
     ctx.count("near_identical_url_pairs", w.get("distinct_pairs", 0))
-    ctx.count("documents_via_urlopen_transport", len(w.get("udocs") or {}))
+    ctx.count("documents_via_urlopen_transport", sum(1 for u in (w.get("udocs") or {}) if u.startswith(URLOPEN_DIR)))
+    ctx.count("documents_via_requests_transport", sum(1 for u in (w.get("udocs") or {}) if u.startswith(REQUESTS_DIR)))
+    if w.get("udocs") and w.get("transport_fails_first"):
+        ctx.count("transport_failed_first")
     outs = {}
     for cr, cache in CONFIGS:
         ctx.count("configs_run")
@@ -292,7 +327,7 @@ def check_history(ctx, w, ops, plan):
     for k_, v_ in w["store"].items():
         alldocs[k_.split("#")[0]] = v_
     for n_, op in enumerate(ops):
-        if op["op"] == "validate" or not str(op.get("ref", "")).startswith(("vf:", "vfu:", "http://store.example")):
+        if op["op"] == "validate" or not str(op.get("ref", "")).startswith(("vf:", "vfu:", "http://store.example", REQUESTS_DIR)):
             continue
         doc_url, frag = U.defrag(op["ref"])
         if doc_url not in alldocs:
@@ -339,5 +374,5 @@ def replay(ctx, rec):
     impl.quiet()
     c = rec["case"]
     w = dict(d=c["draft"], schema=c["schema"], hdocs=c["handler_docs"], store=c["store"], instances=c["instances"],
-             refs=[], frag3=0, metas=[], udocs=c.get("urlopen_docs") or {})
+             refs=[], frag3=0, metas=[], udocs=c.get("urlopen_docs") or {}, transport_fails_first=c.get("transport_fails_first", False))
     check_history(ctx, w, c["history"], c["plan"])
